@@ -131,7 +131,7 @@ def gen_session(rng, backend, cross=False):
     if any(need) and rng.random() < 0.35:
         j = rng.choice([i for i, x in enumerate(need) if x])
         ok = all(r < n for op in segs[j] for r in op.get("regs", [])) and not any(op["cls"] in ("New", "Del") for op in segs[j])
-        if ok and all(not any(o["cls"] in ("New", "Del") for o in sg) for sg in segs[j + 1:]):
+        if ok and j == nseg - 1:
             spec["succ"][j] = False          # cannot follow: the engine must refuse it in every pattern
             spec["mismatch"] = True
     return spec
@@ -336,12 +336,22 @@ def one_session(ctx, sf, spec, reqs, pending, kinds=("list", "seq", "cat", "rese
     for pat in kinds:
         if pat == "cat" and spec.get("mismatch"):
             continue
-        if pat == "cat":
-            progs = [er.build_concat(sf, spec)]
-            script = [dict(run=[0])]
-        else:
-            progs = er.build_segments(sf, spec)
-            script = sc[pat]
+        try:
+            if pat == "cat":
+                progs = [er.build_concat(sf, spec)]
+                script = [dict(run=[0])]
+            else:
+                progs = er.build_segments(sf, spec)
+                script = sc[pat]
+        except IndexError as e:     # RegRefError
+            if type(e).__name__ == "RegRefError" and any(isinstance(p, dict) and "m" in p for sg in spec["segs"] for o in sg
+                                                        for p in o.get("pars", [])):
+                # SymPy hands out a cached expression whose MeasuredParameter still points to the RegRef of an
+                # older program (same root cause as the known finding): the program cannot even be built
+                ctx.fail("measuredpar-shared-symbol", f"{backend}: building a program that uses q[m].par raised RegRefError "
+                         f"('{e}') because the cached symbol belongs to another program", rp)
+                return
+            raise
         real = exec_script(sf, spec, progs, script)
         results[pat] = real
         ctx.tally(f"pattern:{pat}:" + (real["err"] or "ok"))
@@ -834,7 +844,7 @@ def run(ctx, sf):
     flush_heap_decompose(ctx, hr, hp)
     dagger_inverse_checks(ctx, sf)
     rng = ctx.rng
-    n = ctx.n(24, 900)
+    n = ctx.n(24, 400)
     for k in range(n):
         for backend in ("gaussian", "fock", "bosonic"):
             spec = gen_session(rng, backend, cross=(k % 10 == 9))
